@@ -1267,3 +1267,6 @@ ASSUMPTIONS = [
     "_serialize_primitive / _deserialize_primitive for FloatType: only offset / frame clauses are stated and they are NOT "
     "verified for floats (no instance); they are used at call sites",
 ]
+from pyvc import bittheory as _bt
+
+ASSUMPTIONS = ASSUMPTIONS + ["bit-layer lemma schema `%s`: %s" % kv for kv in sorted(_bt.SCHEMAS.items())]
